@@ -488,6 +488,21 @@ func (t *Table) validateIndexKeys(item map[string]*types.Item) error {
 	return nil
 }
 
+// ValidateWriteKeys checks that the key attributes of a write request are
+// present and well typed: the primary key and, for a put, the secondary index
+// keys. It lets a batch reject a malformed request before anything is written.
+func (t *Table) ValidateWriteKeys(item map[string]*types.Item, put bool) error {
+	if _, err := t.KeySchema.GetKey(t.AttributesDef, item); err != nil {
+		return types.NewError("ValidationException", err.Error(), nil)
+	}
+
+	if !put {
+		return nil
+	}
+
+	return t.validateIndexKeys(item)
+}
+
 // Put puts items into table
 func (t *Table) Put(input *types.PutItemInput) (map[string]*types.Item, error) {
 	item := copyItem(input.Item)
